@@ -20,6 +20,8 @@ pub enum Call {
     Synth(String),
     /// text name -> wire name with an optional default zone (used by record synthesis and the C table)
     RawName(Vec<u8>, Option<Vec<u8>>),
+    /// offset translation asked for an offset that is no record boundary (panics by design); later calls must not care
+    UncompressAt(Vec<u8>, usize),
 }
 
 impl Call {
@@ -31,6 +33,7 @@ impl Call {
             Call::Rename(..) => "rename",
             Call::Synth(_) => "synth",
             Call::RawName(..) => "raw_name",
+            Call::UncompressAt(..) => "uncompress_at",
         }
     }
     /// Evaluate; the result is reduced to bytes (verdict + output + view).
@@ -75,6 +78,11 @@ impl Call {
                 Err(_) => b"E".to_vec(),
                 Ok(w) => [b"O".to_vec(), w].concat(),
             },
+            Call::UncompressAt(x, off) => match std::panic::catch_unwind(|| Compress::uncompress_with_previous_offset(x, *off)) {
+                Err(_) => b"PANIC".to_vec(),
+                Ok(Err(_)) => b"E".to_vec(),
+                Ok(Ok((u, o))) => [b"O".to_vec(), u, o.to_be_bytes().to_vec()].concat(),
+            },
         }
     }
     pub fn encode(&self) -> String {
@@ -85,6 +93,7 @@ impl Call {
             Call::Rename(x, t, s, f) => format!("rename:{}:{}:{}:{}", hex(x), hex(t), hex(s), *f as u8),
             Call::Synth(t) => format!("synth:{}", hex(t.as_bytes())),
             Call::RawName(n, z) => format!("rawname:{}:{}", hex(n), z.as_ref().map(|z| format!("z{}", hex(z))).unwrap_or_else(|| "none".into())),
+            Call::UncompressAt(x, o) => format!("uncompressat:{}:{}", hex(x), o),
         }
     }
     pub fn decode(s: &str) -> Option<Call> {
@@ -96,6 +105,7 @@ impl Call {
             "rename" => Call::Rename(unhex(p.get(1)?), unhex(p.get(2)?), unhex(p.get(3)?), *p.get(4)? == "1"),
             "synth" => Call::Synth(String::from_utf8(unhex(p.get(1)?)).ok()?),
             "rawname" => Call::RawName(unhex(p.get(1)?), p.get(2).and_then(|z| z.strip_prefix('z')).map(unhex)),
+            "uncompressat" => Call::UncompressAt(unhex(p.get(1)?), p.get(2)?.parse().ok()?),
             _ => return None,
         })
     }
@@ -228,6 +238,8 @@ pub fn pool(rng: &mut Rng) -> Vec<Call> {
         // a rewritten name would exceed 255 bytes: the rename must fail, every time, and leave nothing behind
         calls.push(Call::Rename(lit.clone(), long.to_wire(), zone.to_wire(), true));
         calls.push(Call::Rename(lit.clone(), Name::from_labels(&[b"ok", b"net"]).to_wire(), zone.to_wire(), true));
+        calls.push(Call::UncompressAt(lit.clone(), 13));
+        calls.push(Call::UncompressAt(lit.clone(), 12));
         calls.push(Call::Compress(lit[..lit.len() - 3].to_vec()));
         calls.push(Call::Uncompress(lit[..lit.len() - 1].to_vec()));
         calls.push(Call::Synth("broken 300 IN A 1.2.3".into()));
@@ -410,6 +422,33 @@ pub fn run(ctx: &mut Ctx) {
         }
         if case < 2 {
             ctx.sample(|| format!("pool of {} calls, e.g. {}", calls.len(), &calls[0].encode()[..calls[0].encode().len().min(200)]));
+        }
+    }
+    // (a'') the public name checker called a very large number of times without any parse in between
+    for case in ctx.phase("name-checker-repetition", 16) {
+        ctx.begin_case(case);
+        let mut rng = Rng::for_case(ctx.seed, "c17-names", 0, case);
+        let k = crate::gen::hostile::N_BOUNDARY;
+        let _ = k;
+        let chain = crate::gen::hostile::boundary(&mut rng, 3, true).bytes; // a name through exactly 16 pointers
+        let off = chain.len() - 16; // owner of the last record: pointer + 10 + 4
+        let first = Compress::check_compressed_name(&chain, off).map_err(|e| e.to_string());
+        let reps = if ctx.tier == "thorough" { 40_000 } else { 6_000 };
+        let mut differs = None;
+        for i in 0..reps {
+            let r = Compress::check_compressed_name(&chain, off).map_err(|e| e.to_string());
+            if r != first && differs.is_none() {
+                differs = Some((i, r));
+            }
+        }
+        ctx.evaluations += reps as u64;
+        ctx.count_n("name_checker_repetitions", reps as u64);
+        if first.is_err() {
+            ctx.count("harness_error");
+            ctx.notes.push("harness: the 16-pointer name is not accepted by the name checker".into());
+        }
+        if let Some((i, r)) = differs {
+            ctx.violation("C17", "check_compressed_name|result-depends-on-earlier-calls".into(), format!("call #{} on the same bytes and offset returns {:?}, the first call returned {:?}", i, r, first), &chain);
         }
     }
     // (c) ParsedPacket::empty(): only the transaction id may vary
